@@ -603,6 +603,15 @@ Example publish_iff_nonvacuous :
   staged_of ex_st [7] <> [].
 Proof. vm_compute. repeat split; discriminate. Qed.
 
+(** The hypotheses of [publish_effect] / [publish_complete] are met by that request. *)
+Example publish_effect_nonvacuous :
+  let d := [Upd (w_uri 0 [7; 9]) 102 (105, 105); Wdr (mkUri 0 1 3 1 1 [7; 10]) 103] in
+  WF ex_st /\ NoDupK d /\ CohL d /\ snd (step ex_st (OPublish [7] d)) = RDone.
+Proof.
+  split; [apply (reachable_good_wf w_base); apply reachable_good_nonvacuous|].
+  split; [apply NoDupK_b_spec; reflexivity|]. split; [apply CohL_b_spec; reflexivity|reflexivity].
+Qed.
+
 (** A refused delta (good first element, bad last one). *)
 Example publish_atomic_nonvacuous :
   exists e, snd (step ex_st (OPublish [7] [Pub (w_uri 0 [7; 11]) (105, 105); Wdr (w_uri 0 [7; 9]) 101])) = RErrDelta e.
